@@ -203,8 +203,8 @@ macro_rules! vk_proof_models {
         #[cfg_attr(kani, kani::proof)]
         #[cfg_attr(kani, kani::unwind($n))]
         #[cfg_attr(kani, kani::stub(alloc::fmt::format, crate::verif_env::fmt_format_stub))]
-        #[cfg_attr(kani, kani::stub(bumpalo::Bump::alloc_layout, crate::verif_env::bump_alloc_layout_stub))]
-        #[cfg_attr(kani, kani::stub(bumpalo::Bump::try_alloc_layout, crate::verif_env::bump_try_alloc_layout_stub))]
+        #[cfg_attr(kani, kani::stub(bumpalo::Bump::alloc_layout, crate::verif_bump::bump_alloc_layout_stub))]
+        #[cfg_attr(kani, kani::stub(bumpalo::Bump::try_alloc_layout, crate::verif_bump::bump_try_alloc_layout_stub))]
         #[cfg_attr(kani, kani::stub(<&rust_decimal::Decimal as core::ops::Add<&rust_decimal::Decimal>>::add, crate::verif_dec::add_ref))]
         #[cfg_attr(kani, kani::stub(<&rust_decimal::Decimal as core::ops::Sub<&rust_decimal::Decimal>>::sub, crate::verif_dec::sub_ref))]
         #[cfg_attr(kani, kani::stub(<&rust_decimal::Decimal as core::ops::Mul<&rust_decimal::Decimal>>::mul, crate::verif_dec::mul_ref))]
